@@ -94,8 +94,13 @@ func newHistory(universe []txRec, nonces map[int]int) {
 	stateDB = st
 }
 
+// skipLookups: the projection does not call IsExisted (a scheduled lock-free lookup must be the
+// first one to ask for that transaction)
+var skipLookups bool
+
 func project() map[string]interface{} {
 	st := map[string]interface{}{}
+	st["lookupSkipped"] = skipLookups
 	pend := make([]int, 0)
 	for _, t := range pool.GetReceived() {
 		id, ok := idOf[t.Hash]
@@ -110,7 +115,9 @@ func project() map[string]interface{} {
 	found := make([]bool, len(txs))
 	for i, t := range txs {
 		ex[i] = pool.GetExecuted(t.Hash) != nil
-		existed[i] = pool.IsExisted(t.Hash)
+		if !skipLookups {
+			existed[i] = pool.IsExisted(t.Hash)
+		}
 		g, err := pool.GetTransaction(t.Hash)
 		found[i] = err == nil && g != nil && g.Hash == t.Hash
 	}
